@@ -168,10 +168,18 @@ def aggregate(op, vals, quirks=()):
         if not pairs:
             return []               # like List: solutions exist, all ignored
         pairs.sort(key=lambda av: av[1], reverse=(mk.group(1) == 'ArgMax'))
-        top = pairs[:k + 1]
-        if len(set(v for a, v in top)) != len(top):
-            raise Ambiguous()       # ties among the K+1 extreme values: order unspecified
-        return [a for a, v in pairs[:k]]
+        out = []
+        i = 0
+        while i < len(pairs) and len(out) < k:
+            j = i
+            while j < len(pairs) and pairs[j][1] == pairs[i][1]:
+                j += 1
+            group = [a for a, v in pairs[i:j]]
+            if any(canon_key(a) != canon_key(group[0]) for a in group):
+                raise Ambiguous()   # different arguments tie on the value: order unspecified
+            out.extend(group[:k - len(out)])
+            i = j
+        return out
     if op in ('ArgMin', 'ArgMax'):
         pairs = [(a, atom(v)) for a, v in vals if v is not None]
         if not pairs:
